@@ -433,6 +433,11 @@ impl ScmSocket {
         } else {
             socket::MsgFlags::MSG_DONTWAIT
         };
+        // the received descriptors must not leak into the programs this process
+        // executes later: the main process forks and execs the next worker while it
+        // still holds the listen sockets the previous one handed back
+        #[cfg(any(target_os = "linux", target_os = "android"))]
+        let flags = flags | socket::MsgFlags::MSG_CMSG_CLOEXEC;
 
         let msg = socket::recvmsg::<()>(self.fd, &mut iov[..], Some(&mut cmsg), flags)
             .map_err(|error| ScmSocketError::Receive(error.to_string()))?;
